@@ -10,6 +10,7 @@ Do(ev) ==
     [] ev.e = "Read" -> Read(ev.k) /\ ret' = ev.r
     [] ev.e = "Dump" -> Dump /\ ret' = ev.r
     [] ev.e = "SetCount" -> SetCount(ev.c)
+    [] ev.e = "Burst" -> Burst(ev.n)
     [] OTHER -> FALSE
 TraceNext == ti <= Len(T) /\ ti' = ti + 1 /\ Do(T[ti])
 TraceSpec == TraceInit /\ [][TraceNext]_<<vars, ti>>
